@@ -793,7 +793,7 @@ class BlobStorage(BlobStorageMixin):
         if not foreign:
             self._blob_tpc_abort()
 
-    def _packUndoing(self, packtime, referencesf):
+    def _packUndoing(self, packtime, referencesf, last_tid):
         # Walk over all existing revisions of all blob files and check
         # if they are still needed by attempting to load the revision
         # of that object from the database.  This is maybe the slowest
@@ -803,6 +803,11 @@ class BlobStorage(BlobStorageMixin):
             for filename in files:
                 filepath = os.path.join(oid_path, filename)
                 whatever, serial = self.fshelper.splitBlobFilename(filepath)
+                if serial > last_tid:
+                    # Written after the pack began, perhaps by a
+                    # transaction that is still being committed and whose
+                    # revision cannot be loaded yet: nothing to pack.
+                    continue
                 try:
                     self.loadSerial(oid, serial)
                 except POSKeyError:
@@ -844,11 +849,12 @@ class BlobStorage(BlobStorageMixin):
             # Pack the underlying storage, which will allow us to determine
             # which serials are current.
             unproxied = self.__storage
+            last_tid = unproxied.lastTransaction()
             result = unproxied.pack(packtime, referencesf)
 
             # Perform a pack on the blob data.
             if self.__supportsUndo:
-                self._packUndoing(packtime, referencesf)
+                self._packUndoing(packtime, referencesf, last_tid)
             else:
                 self._packNonUndoing(packtime, referencesf)
         finally:
